@@ -6,6 +6,7 @@ while true; do
   if [ $n -gt $done_n ]; then
     done_n=$((done_n+1)); id=$(sed -n "${done_n}p" $Q)
     [ "$id" = "STOP" ] && exit 0
-    /verif/tools/seedeval.sh $id > /verif/work/seed_$id.txt 2>&1
+    # a line is "<ID>" or "<ID> <offset>"
+    set -- $id; SEED_OFFSET=${2:-0} /verif/tools/seedeval.sh $1 > /verif/work/seed_$1_${2:-0}.txt 2>&1
   else sleep 20; fi
 done
